@@ -498,6 +498,10 @@ class SceneGraph:
         for attrib in self.transforms.node_data.values():
             if "geometry" in attrib and attrib["geometry"] in geometries:
                 attrib.pop("geometry")
+        # the edge leading to a node holds a copy of the reference
+        for attrib in self.transforms.edge_data.values():
+            if "geometry" in attrib and attrib["geometry"] in geometries:
+                attrib.pop("geometry")
 
         # it would be safer to just run _cache.clear
         # but the only property using the geometry should be
